@@ -120,7 +120,7 @@ def _decide(h, meta, cfg, r):
     goto = os.path.join(work, 'h.out')
     smt = os.path.join(work, 'vc.smt2')
     r['symex_s'] += engine.make_goto(meta['goto_file'], meta['mangled_name'], goto)
-    st, out, secs = engine.dump_smt(goto, h['unwind'], smt, cfg['symex_cap'])
+    st, out, secs = engine.dump_smt(goto, h['unwind'], smt, cfg['symex_cap'], not h.get('nounwindassert'))
     r['symex_s'] = round(r['symex_s'] + secs, 2)
     if st != 'ok':
         r['verdict'] = 'error'
@@ -176,21 +176,26 @@ def _decide(h, meta, cfg, r):
         if r['vacuity'] is None:
             vq = f'(assert {" ".join(vac) if len(vac) == 1 else "(or " + " ".join(vac) + ")"})'
             pins = []
-            if ins['f64'] or mode != 'U':
-                for variant in (0, 1):
-                    pl = []
-                    for k in range(engine.NINPUT):
-                        num = pinned_value(k, variant)
-                        if mode == 'R':
-                            lit = f'(/ {abs(num)}.0 8.0)' if num >= 0 else f'(- (/ {abs(num)}.0 8.0))'
-                        else:
-                            import struct
-                            bits = struct.unpack('<Q', struct.pack('<d', num / 8.0))[0]
-                            lit = f'((_ to_fp 11 53) #x{bits:016x})' if mode == 'B' else f'#x{bits:016x}'
-                        pl.append(f'(assert (= ({UFPFX}in_f64 (_ bv{k} 32)) {lit}))')
+            wit = _reach_witness(h, work, cfg['seed'])
+            if wit is not None:
+                import struct
+                pl = []
+                for k, (_, fr) in wit['f64'].items():
+                    if UFPFX + 'in_f64' not in it.funret:
+                        break
+                    if mode == 'R':
+                        lit = f'(/ {abs(fr.numerator)}.0 {fr.denominator}.0)'
+                        lit = lit if fr >= 0 else f'(- {lit})'
+                    else:
+                        bits = struct.unpack('<Q', struct.pack('<d', float(fr)))[0]
+                        lit = f'((_ to_fp 11 53) #x{bits:016x})' if mode == 'B' else f'#x{bits:016x}'
+                    pl.append(f'(assert (= ({UFPFX}in_f64 (_ bv{k} 32)) {lit}))')
+                if UFPFX + 'in_u64' in it.funret:
+                    for k, val in wit['u64'].items():
+                        pl.append(f'(assert (= ({UFPFX}in_u64 (_ bv{k} 32)) #x{val:016x}))')
+                if pl:
                     pins.append(pl)
-            if UFPFX + 'in_f64' not in it.funret:
-                pins = []
+                r['reach_witness'] = 'native'
             v = None
             for pl in pins + [[]]:
                 q = lines + pl + [vq, '(check-sat)']
@@ -252,12 +257,20 @@ def _decide(h, meta, cfg, r):
                     q2 = lines + block + [f'(assert (or {" ".join(tolmain)} false))', '(check-sat)']
                     if getq:
                         q2.append(f'(get-value ({" ".join(getq)}))')
-                    v2, o2, s2 = engine.run_solver(q2, min(cap, 60), cfg['seed'])
+                    v2, o2, s2 = engine.run_solver(q2, cap, cfg['seed'])
                     r['queries'] += 1
                     r['solver_s'] += s2
                     if v2 == 'sat':
                         o = o2
                         r['tol_model'] = True
+                    elif v2 == 'unsat' and attempts == 1 and not vac_fail:
+                        # the exact equalities fail somewhere (typically by the rounding of a constant that CBMC
+                        # folded in IEEE arithmetic, e.g. 1.0/3.0), but no input violates them by more than the
+                        # obligation's stated tolerance
+                        r['verdict'] = 'unsat'
+                        r['decided_in'] = mode + ' (within the stated tolerance; exact equality is sat)'
+                        r['within_tolerance_only'] = True
+                        return
             model = engine.parse_model(o, mode)
             ipath = os.path.join(work, f'cex_{mode}_{attempts}.inputs')
             write_inputs(ipath, model)
@@ -328,6 +341,35 @@ def _replay_pinned(h, work, r):
             r['replay'] = rp
             return True
     return False
+
+
+def _reach_witness(h, work, seed):
+    """an input on which the harness reaches its end natively (RESULT PASS), found by trying the two fixed
+    pinned sets and then seeded pseudo-random small values; the vacuity twin is then a ground evaluation
+    on that input instead of a search"""
+    import random
+    rnd = random.Random(1000 + seed)
+    for attempt in range(40):
+        if attempt < 2:
+            f = {k: ('real', Fraction(pinned_value(k, attempt), 8)) for k in range(engine.NINPUT)}
+            u = {k: 0 for k in range(engine.NINPUT)}
+        else:
+            span = rnd.choice([1, 4, 16, 64])
+            f = {k: ('real', Fraction(rnd.randint(-8 * span, 8 * span), 8)) for k in range(engine.NINPUT)}
+            top = rnd.choice([1, 3, 8, 40, 70])
+            u = {k: rnd.randint(0, top) for k in range(engine.NINPUT)}
+        model = {'f64': f, 'u64': u}
+        ipath = os.path.join(work, 'reach.inputs')
+        write_inputs(ipath, model)
+        exe = os.path.join(BUILD, 'native', 'debug', 'vhreplay')
+        try:
+            p = subprocess.run([exe, h['name'], ipath], capture_output=True, text=True, timeout=20)
+        except subprocess.TimeoutExpired:
+            continue
+        # FAIL counts too: natively a failed obligation stops the run, symbolically it is only recorded
+        if 'RESULT: PASS' in p.stdout or 'RESULT: FAIL' in p.stdout:
+            return model
+    return None
 
 
 def build_native(log):
